@@ -279,22 +279,16 @@ example : (rangeOf 1 1100 .reverse 0) = (1, 1) ∧ (rangeOf 1100 1100 .forward 5
 tests of `handleResponse` in the order of `verify`, every rejecting branch is a
 bare `return noProgress`, the recomputation uses `filterHeaders[i-1]` and is
 compared with `filterHeaders[i]`, cache / persist / delete come after all of
-them, the arithmetic of `prepareCFiltersQuery` is the one of `rangeOf`, and
-`GetCFilter` looks up cache → database → (lock) cache → prepare → query and
-returns `targetFilter` or fails. -/
+them, and `GetCFilter` looks up cache → database → (lock) cache → prepare → query and
+returns `targetFilter` or fails.  (That the arithmetic of `prepareCFiltersQuery` is the
+one of `rangeOf` is no longer a textual fact: the function is translated on every run and
+`C05_trans_prepareCFiltersQuery` / `C05_trans_headerIndex` in Props/C05Trans.lean prove it.) -/
 theorem C05_source_facts :
     Gen.Query.cfSteps = ["reqtype", "type", "reqftype", "ftype", "index", "decode", "headers", "rehash", "compare",
       "target", "cache", "persist", "delete", "more", "finish"] ∧
     Gen.Query.cfGuards = 8 ∧ Gen.Query.cfGuardsPure = true ∧
     Gen.Query.cfCurHeader = "q.filterHeaders[i]" ∧ Gen.Query.cfPrevHeader = "q.filterHeaders[i-1]" ∧
     Gen.Query.cfRehashArgs = "filter, prevHeader" ∧
-    Gen.Query.prepArith = ["if int64(height) > bestHeight", "batchSize := int64(wire.MaxGetCFiltersReqRange)",
-      "if maxBatchSize > 0 && maxBatchSize < wire.MaxGetCFiltersReqRange", "batchSize = maxBatchSize",
-      "case noBatch", "startHeight = int64(height)", "stopHeight = int64(height)",
-      "case forwardBatch", "startHeight = int64(height)", "stopHeight = startHeight + batchSize - 1",
-      "case reverseBatch", "stopHeight = int64(height)", "startHeight = stopHeight - batchSize + 1",
-      "if startHeight < 1", "startHeight = 1", "if stopHeight > bestHeight", "stopHeight = bestHeight",
-      "numFilters := uint32(stopHeight - startHeight + 1)", "for i := 1; i < len(blockHeaders)"] ∧
     Gen.Query.getCFilterOrder = ["cache", "db", "lock", "deferUnlock", "cache", "prepare", "query"] ∧
     Gen.Query.getCFilterReturnsTargetOrFails = true := by decide
 
